@@ -1,5 +1,6 @@
 //! mvh — conformance harness binding the TLA+ specification in /verif/spec to cf/miden-vm.
 mod air;
+mod codec;
 mod exec;
 mod hints;
 mod pipeline;
@@ -19,6 +20,9 @@ fn main() {
         "record-vm" => record::record_vm(a(2), a(3)),
         "air-check" => air::air_check(a(2), a(3)),
         "pipeline" => pipeline::pipeline(a(2), a(3)),
+        "codec" => codec::codec(a(2), a(3), a(4).parse().unwrap_or(0)),
+        "ctors" => codec::ctors(a(2), a(3)),
+        "codec-corpus" => codec::corpus(a(2)),
         "hints" => hints::run_hints(a(2), a(3)),
         "determinism" => trace::determinism(a(2), a(3)),
         "iter-walk" => trace::iter_walk(a(2), a(3)),
